@@ -13,6 +13,8 @@ CHECK_DEADLOCK FALSE
 POSTCONDITION Post
 """
 
+STRUCT_REPS = ("struct", "pstruct", "estruct", "pestruct")
+
 API = {"Get": "jp.Expr.Get", "First": "jp.Expr.First", "FirstFound": "jp.Expr.FirstFound", "Has": "jp.Expr.Has",
        "Locate0": "jp.Expr.Locate(0)", "Locate1": "jp.Expr.Locate(1)", "Locate2": "jp.Expr.Locate(2)",
        "Walk": "jp.Expr.Walk", "GetNodes": "jp.Expr.GetNodes", "FirstNode": "jp.Expr.FirstNode"}
@@ -199,6 +201,13 @@ def judge_once(ctx, cases, mode, chunk=6000, count=True):
             locus = "%s/%s/%s/%s/%s/%s" % (b["loc"]["frag"], b["loc"]["pos"], b["loc"]["cont"], b["loc"]["pre"], ",".join(bd), rc)
             if b["kind"] == "as-implemented":     # exact match with the second reading of a known defect: short, precise locus
                 locus = "%s/%s/%s" % (b["loc"]["frag"], b["loc"]["pos"], rc)
+            elif rc.split("(")[0] in STRUCT_REPS:
+                # struct representations: a deviation is attributed to the missing struct branches (C11-3) only when the path
+                # applies a wildcard / descent / filter to a struct-shaped object; child and name-union steps keep the plain locus
+                sf = b.get("sf") or {}
+                kinds = "+".join(k for k in ("wild", "desc", "filter") if sf.get(k))
+                if kinds:
+                    locus = "struct-unsupported/%s/%s" % (kinds, rc)
             recs.append({"api": API.get(b["ev"], b["ev"]), "kind": b["kind"], "locus": locus,
                          "witness": {"path": case.get("ps"), "data": compact(case["data"])},
                          "case": strip_case(case), "detail": {"as": b["as"], "m": b.get("m") or None}})
